@@ -569,6 +569,13 @@ pub fn replay_c06(r: &Value) {
                 run.bus.faults.push((n, parse_fault(job["fault"].as_str().unwrap())));
                 while run.bus.tx_count <= n && !run.done() { run.step(); }
             }
+            "fault2" => {
+                let n = first_tx + job["n_rel"].as_u64().unwrap() as usize;
+                let d = job["d"].as_u64().unwrap() as usize;
+                run.bus.faults.push((n, parse_fault(job["fault"].as_str().unwrap())));
+                run.bus.faults.push((n + d, parse_fault(job["fault2"].as_str().unwrap())));
+                while run.bus.tx_count <= n + d && !run.done() { run.step(); }
+            }
             "garble" => {
                 let k = job["k"].as_u64().unwrap() as usize;
                 for j in 0..3 { run.bus.faults.push((first_tx + k + j, Fault::Garble)); }
@@ -875,14 +882,24 @@ fn c06_finish(run: &mut W3Run, sc: &Scenario, t_fault: i64, what: &str, tally: &
 
 pub fn run_c06(tier: Tier) -> ! {
     let mut scenarios = vec![];
-    let sets: Vec<Vec<u8>> = tier.pick(vec![vec![1, 2], vec![0, 5], vec![2, 4, 5], vec![0, 3, 5]], vec![vec![1, 2], vec![0, 5], vec![2, 4, 5], vec![0, 3, 5], vec![0, 1, 5], vec![1, 3, 4], vec![0, 2, 3, 5]]);
-    for addrs in &sets {
-        for divs in tier.pick(vec![vec![16i64]], vec![vec![16], vec![8]]) {
+    // (stations, HSA, gap factor)
+    let mut sets: Vec<(Vec<u8>, u8, u8)> = vec![(vec![1, 2], 6, 1), (vec![0, 5], 6, 1), (vec![2, 4, 5], 6, 1), (vec![0, 3, 5], 6, 1), (vec![0, 1, 5], 6, 1), (vec![1, 3, 4], 6, 1), (vec![0, 2, 3, 5], 6, 1)];
+    if tier == Tier::Thorough {
+        sets.extend([(vec![0, 1, 2, 3], 6, 1), (vec![3, 4, 5], 6, 1), (vec![1, 6], 8, 1), (vec![0, 2, 7], 8, 2), (vec![1, 2, 4], 5, 2)]);
+    }
+    // poll schedules: periods (Tslot/div per station, cyclic) and phases (thirds of the period,
+    // cyclic). Equal phases = stations polled at the very same instants (found F19).
+    let schedules: Vec<(Vec<i64>, Vec<i64>)> = tier.pick(
+        vec![(vec![16], vec![0, 1, 2]), (vec![16], vec![0, 0, 0])],
+        vec![(vec![16], vec![0, 1, 2]), (vec![16], vec![0, 0, 0]), (vec![8], vec![0, 1, 2]), (vec![8], vec![0, 0, 0]), (vec![16, 8], vec![0, 0, 0]), (vec![4], vec![2, 0, 1]), (vec![16, 4], vec![0, 1, 0])],
+    );
+    for (addrs, hsa, gap) in &sets {
+        for (divs, phases) in &schedules {
             for load in [Load::None, Load::SdnAlways] {
-                if tier == Tier::Quick && load != Load::None && addrs.len() > 2 {
+                if tier == Tier::Quick && phases[1] == 0 && load == Load::None && addrs.len() == 2 {
                     continue;
                 }
-                scenarios.push(Scenario { addrs: addrs.clone(), hsa: 6, gap: 1, baud: 1, slot_bits: 300, ttr: if load == Load::None { None } else { Some(1500) }, divs: divs.clone(), phases: vec![0, 1, 2], loads: vec![load], late: vec![], responders: vec![] });
+                scenarios.push(Scenario { addrs: addrs.clone(), hsa: *hsa, gap: *gap, baud: 1, slot_bits: 300, ttr: if load == Load::None { None } else { Some(1500) }, divs: divs.clone(), phases: phases.clone(), loads: vec![load], late: vec![], responders: vec![] });
             }
         }
     }
@@ -941,6 +958,42 @@ pub fn run_c06(tier: Tier) -> ! {
             let t_fault = run.now;
             c06_finish(&mut run, sc, t_fault, &format!("{:?} of telegram #{}", f, n - first_tx), &tally, json!({"kind":"fault","n_rel": n - first_tx, "fault": format!("{:?}", f)}));
         });
+        // episodes of TWO faults (thorough): every basic fault on telegram k, followed by every basic fault
+        // on the 1st, 2nd or 3rd telegram after it (the disturbed recovery traffic itself is hit again)
+        if tier == Tier::Thorough && sc.divs == vec![16] {
+            let basic = |len: usize| -> Vec<Fault> {
+                let mut v = vec![Fault::Drop, Fault::Truncate(1), Fault::Flip { byte: 0, bit: 3 }];
+                if len > 2 {
+                    v.push(Fault::Truncate(len - 1));
+                }
+                v
+            };
+            let jobs2: Vec<(usize, Fault, usize, Fault)> = (0..n_tx)
+                .flat_map(|k| {
+                    let mut v = vec![];
+                    for f1 in basic(lens[k]) {
+                        for d in 1..=3usize {
+                            // the length of the later telegram is not known in advance: len-1 is replaced by 2
+                            for f2 in [Fault::Drop, Fault::Truncate(1), Fault::Truncate(2), Fault::Flip { byte: 0, bit: 3 }] {
+                                v.push((first_tx + k, f1.clone(), d, f2));
+                            }
+                        }
+                    }
+                    v
+                })
+                .collect();
+            jobs2.par_iter().for_each(|(n, f1, d, f2)| {
+                let mut run = base.clone();
+                run.bus.faults.push((*n, f1.clone()));
+                run.bus.faults.push((*n + *d, f2.clone()));
+                while run.bus.tx_count <= *n + *d && !run.done() && run.now < t_start + window_us * 2 {
+                    run.step();
+                }
+                let t_fault = run.now;
+                ctx().witness("c06_two_fault_episode");
+                c06_finish(&mut run, sc, t_fault, &format!("{:?} of telegram #{} and {:?} of the telegram {} later", f1, n - first_tx, f2, d), &tally, json!({"kind":"fault2","n_rel": n - first_tx, "fault": format!("{:?}", f1), "d": d, "fault2": format!("{:?}", f2)}));
+            });
+        }
         // corruption window: three consecutive telegrams garbled
         (0..n_tx.saturating_sub(3)).into_par_iter().step_by(tier.pick(3, 1)).for_each(|k| {
             let mut run = base.clone();
@@ -1036,7 +1089,7 @@ pub fn run_c06(tier: Tier) -> ! {
     ev.rule = "per scenario the ring is brought up on real stations; then, from a snapshot, every single fault of the plan is applied once: drop / truncate to 1 / truncate to len-1 / bit flip in first, middle, last byte of EVERY telegram of a window of HSA+3 rotations, a 3-telegram corruption window at every position, and a crash of every station at every effective poll (before the poll / right after it incl. mid-transmission, without restart and with restart after 2 and 40 slot times); plus the cold-start claim race; each execution continues fault-free for T_rec and the stability window and is judged by the C02 ring predicate and the silence bound; all executions are distinct by construction".into();
     ev.samples = vec![json!({"scenario": format!("{:?}", scenarios[0]), "fault": "Drop of telegram #5"}), json!({"scenario": format!("{:?}", scenarios[scenarios.len() - 1]), "fault": "crash of #5 mid-transmission, restart after 40 slot times"})];
     ev.exhaustive = true;
-    ev.bounds = json!({"scenarios": scenarios.len(), "faults_per_execution": 1, "window_rotations": "HSA+3", "crash_stride": tier.pick(3, 1)});
+    ev.bounds = json!({"scenarios": scenarios.len(), "faults_per_execution": tier.pick("1", "1; 2 (k, k+1..3) on the Tslot/16 schedules"), "window_rotations": "HSA+3", "crash_stride": tier.pick(3, 1), "poll_schedules": format!("{:?}", schedules)});
     let outcomes = tally.outcomes.lock().unwrap().clone();
     ev.distinct_outcomes = outcomes.len() as u64;
     ev.extra.insert("outcomes".into(), json!(outcomes));
